@@ -4,8 +4,8 @@ tier=${1:-quick}
 cd "$(dirname "$0")/.."
 for p in C01 C02 C03 C04 C05 C06 C07 C08 C09 C10 C11 C12 C13 C14 C15 C16 C17 C18 C19 C20; do
   s=$(date +%s)
-  ./vcheck $p --tier $tier > /var/tmp/vcheck-$p.log 2>&1
+  ./vcheck $p --tier $tier > /var/tmp/vcheck-$tier-$p.log 2>&1
   rc=$?
   e=$(date +%s)
-  echo "$p rc=$rc $((e-s))s $(grep -E '^(OK|VIOLATION|MACHINERY)' /var/tmp/vcheck-$p.log | head -2 | tr '\n' ' ' | cut -c1-150)"
+  echo "$p rc=$rc $((e-s))s $(grep -E '^(OK|VIOLATION|MACHINERY)' /var/tmp/vcheck-$tier-$p.log | head -2 | tr '\n' ' ' | cut -c1-150)"
 done
